@@ -1,7 +1,226 @@
 /-
 C04 — Function parameters become correctly laid-out, correctly wired controls.
-(placeholder: theorems follow)
+
+Property theorems only (helper lemmas are in `Lemmas*.lean`).  All statements quantify over every
+signature: any number of parameters, any annotations, `rates` lists, defaults (missing, scalar,
+arrays of any length), `prepend` counts, metadata defaults, and any sequence of levels (the graph
+function and the functions passed to `SynthDef.wrap`, in wrap-call order).
 -/
-import Sc3Verif.C04.Model
+import Sc3Verif.C04.LemmasLag
 namespace Sc3Verif.C04
+
+/-- the ControlNames `_args_to_controls` makes for a level built when `base` slots exist -/
+abbrev cnsOf (specs : Nat → Option Val) (base : Nat) (params : List Param) (rates : List RateSpec)
+    (skip : Nat) : List CN := argsToControls specs base params rates skip
+
+/-- The name table entries a level appends are its parameters in declaration order, each with the
+    closed-form slot `slotOf` = start of its rate group + sizes of the earlier parameters of the
+    same group; and the slot array grows by the four groups in the order ir, tr, ar, kr. -/
+theorem level_indices_closed_form {specs : Nat → Option Val} {st st' : St} {params : List Param}
+    {rates : List RateSpec} {skip : Nat} {args : List ArgVal} (hi : Inv st)
+    (h : buildLevel specs st params rates skip = .ok (st', args)) :
+    let cns := cnsOf specs st.controls.length params rates skip
+    st'.names = st.names ++ cns.mapIdx (fun i cn => { cn with index := slotOf cns st.controls.length i cn.rate }) ∧
+    st'.controls = st.controls ++ flatVals (ofRate .ir cns) ++ flatVals (ofRate .tr cns) ++
+      flatVals (ofRate .ar cns) ++ flatVals (ofRate .kr cns) :=
+  let lo := buildLevel_ok hi h
+  ⟨lo.names, lo.controls⟩
+
+/-- MAIN (layout): slots are laid out by rate group (ir, tr, ar, kr), inside a group in declaration
+    order; the parameters' slot ranges do not overlap and stay inside the level's range. -/
+theorem layout_by_rate_then_decl (cns : List CN) (base : Nat) (i j : Nat) (hi : i < cns.length)
+    (hj : j < cns.length) :
+    let slot := fun k (h : k < cns.length) => slotOf cns base k cns[k].rate
+    (cns[i].rate.ord < cns[j].rate.ord → slot i hi + cns[i].size ≤ slot j hj) ∧
+    (cns[i].rate = cns[j].rate → i < j → slot i hi + cns[i].size ≤ slot j hj) ∧
+    base ≤ slot i hi ∧
+    slot i hi + cns[i].size ≤ base + gsize cns .ir + gsize cns .tr + gsize cns .ar + gsize cns .kr := by
+  refine ⟨?_, ?_, ?_, ?_⟩
+  · intro h
+    have h1 := slot_end_le cns base i hi
+    have h2 := groupStart_mono cns base _ _ h
+    simp only [slotOf]; simp only [slotOf] at h1; omega
+  · intro hr hij
+    have h1 := gsize_take_succ cns i hi
+    have h2 := gsize_take_mono cns cns[i].rate (i + 1) j hij
+    simp only [slotOf, ← hr]; omega
+  · simp only [slotOf]
+    cases cns[i].rate <;> simp [groupStart] <;> omega
+  · have h1 := slot_end_le cns base i hi
+    simp only [slotOf] at h1 ⊢
+    cases hr : cns[i].rate <;> rw [hr] at h1 <;> simp [groupStart] at h1 ⊢ <;> omega
+
+/-- which rate group a parameter lands in: a rate name in `rates` wins over the annotation, the
+    annotation over the default (control rate); lags only reach control-rate parameters -/
+theorem classify_spec (annot : Option Rate) (rs : RateSpec) :
+    (∀ r, rs = .name r → (classify annot rs).1 = r) ∧
+    (rs.isName = false → (classify annot rs).1 = (match annot with | some a => a | none => .kr)) ∧
+    ((classify annot rs).1 ≠ .kr → (classify annot rs).2 = .num 0) := by
+  refine ⟨?_, ?_, ?_⟩
+  · intro r h; subst h; cases r <;> cases annot <;> simp [classify, RateSpec.isName] <;> rename_i a <;> cases a <;> simp
+  · intro h
+    cases rs <;> simp [RateSpec.isName] at h <;> cases annot <;> simp [classify, RateSpec.isName] <;>
+      rename_i a <;> cases a <;> simp
+  · unfold classify
+    simp only
+    split
+    · simp
+    · split
+      · simp
+      · split
+        · simp
+        · simp
+
+/-- the slot array is exactly the concatenation of the control units' values, every control unit
+    starts where the previous ones end: the units' `[special, special + n)` partition the slots -/
+theorem units_partition_slots {specs : Nat → Option Val} {st : St} {ls : List Level}
+    {as : List (List ArgVal)} (h : buildDef specs St.init ls = .ok (st, as)) :
+    st.controls = st.units.flatMap (·.values) ∧ st.cindex = st.controls.length ∧
+    ∀ k (hk : k < st.units.length), st.units[k].special = ((st.units.take k).flatMap (·.values)).length :=
+  let i := (buildDef_ok inv_init h).2
+  ⟨i.controls, i.cindex, i.special⟩
+
+/-- MAIN (name table): in every definition, every name table entry points at the slots holding
+    that parameter's default values: `controls[index + j] = default[j]`. -/
+theorem name_index_points_to_defaults {specs : Nat → Option Val} {st : St} {ls : List Level}
+    {as : List (List ArgVal)} (h : buildDef specs St.init ls = .ok (st, as)) :
+    ∀ cn ∈ st.names, ∀ j, j < cn.vals.length → st.controls[cn.index + j]? = cn.vals[j]? := by
+  intro cn hcn j hj
+  have hn : NamesOk St.init := by intro c hc; simp [St.init] at hc
+  have := defOk_namesOk inv_init hn (buildDef_ok inv_init h).1 cn hcn
+  unfold PointsTo CN.size at this
+  have e : cn.vals[j]? = ((st.controls.drop cn.index).take cn.vals.length)[j]? := by rw [this]
+  rw [e, List.getElem?_take_of_lt hj, List.getElem?_drop]
+
+/-- MAIN (wiring): the value the body receives for parameter `i` of a level is one output proxy
+    (scalar default) or a list of them (array default); its `j`-th element is output `k` of control
+    unit `u` with `special u + k = index i + j`, `u` was created by this level, and `u` has the rate
+    and class of the parameter's group (Control/ir, TrigControl, AudioControl, Control or
+    LagControl/kr). -/
+theorem body_receives_slots {specs : Nat → Option Val} {st st' : St} {params : List Param}
+    {rates : List RateSpec} {skip : Nat} {args : List ArgVal} (hi : Inv st)
+    (h : buildLevel specs st params rates skip = .ok (st', args)) :
+    let cns := cnsOf specs st.controls.length params rates skip
+    args.length = cns.length ∧
+    ∀ i (h1 : i < cns.length) (h2 : i < args.length),
+      ArgOk st'.units { cns[i] with index := slotOf cns st.controls.length i cns[i].rate } args[i] ∧
+      ∀ p ∈ args[i].proxies, ∃ hp : p.1 < st'.units.length, st.units.length ≤ p.1 ∧
+        st'.units[p.1].rate = cns[i].rate ∧ st'.units[p.1].cls = groupCls (lagged cns) cns[i].rate :=
+  let lo := buildLevel_ok hi h
+  ⟨lo.alen, fun i h1 h2 => ⟨lo.argOk i h1 h2, lo.served i h1 h2⟩⟩
+
+/-- MAIN (lags): if some control-rate parameter of the level has a non-zero lag, the control-rate
+    parameters are served by LagControl units (`body_receives_slots`, `groupCls`) and the lag input
+    behind channel `j` of control-rate parameter `i` is its `rates` entry: the number itself, or
+    element `j mod length` of the list (`lagAt`). -/
+theorem lags_carried {specs : Nat → Option Val} {st st' : St} {params : List Param}
+    {rates : List RateSpec} {skip : Nat} {args : List ArgVal} (hi : Inv st)
+    (h : buildLevel specs st params rates skip = .ok (st', args)) :
+    let cns := cnsOf specs st.controls.length params rates skip
+    lagged cns = true →
+    ∀ i (h1 : i < cns.length) (h2 : i < args.length), cns[i].rate = .kr →
+      ∀ j (hj : j < args[i].proxies.length),
+        ∃ hp : args[i].proxies[j].1 < st'.units.length,
+          st'.units[args[i].proxies[j].1].lags[args[i].proxies[j].2]? = some (lagAt cns[i].lag j) :=
+  buildLevel_lags hi h
+
+/-- building further levels (wrapped functions) never changes what is already laid out: slots,
+    units and name table only grow at the end, so the facts above stay true in the finished
+    definition -/
+theorem later_levels_keep_earlier {specs : Nat → Option Val} {st st' : St} {ls : List Level}
+    {as : List (List ArgVal)} (hi : Inv st) (h : buildDef specs st ls = .ok (st', as)) :
+    (∃ more, st'.units = st.units ++ more) ∧
+    (∀ cn a, ArgOk st.units cn a → ArgOk st'.units cn a) := by
+  obtain ⟨more, hm⟩ := defOk_units_mono (buildDef_ok hi h).1
+  refine ⟨⟨more, hm⟩, ?_⟩
+  rintro cn a ⟨ps, h1, h2, h3⟩
+  exact ⟨ps, h1, fun j hj => by rw [hm]; exact readsSlot_mono (h2 j hj), h3⟩
+
+/-- wrap nesting: the name table of the definition is the concatenation of the levels' tables in
+    wrap-call order, each level built on the slots of the previous ones -/
+theorem wrap_levels_concatenate {specs : Nat → Option Val} {st st1 st2 : St} {l : Level} {ls : List Level}
+    {a : List ArgVal} {as : List (List ArgVal)} (hi : Inv st)
+    (h1 : buildLevel specs st l.params l.rates l.skip = .ok (st1, a))
+    (h2 : buildDef specs st1 ls = .ok (st2, as)) :
+    buildDef specs st (l :: ls) = .ok (st2, a :: as) ∧ Inv st1 := by
+  refine ⟨?_, (buildLevel_ok hi h1).inv⟩
+  simp [buildDef, bind, Except.bind, h1, h2]
+
+/-! ## variants -/
+
+/-- a variant block is the default slot array with exactly the named slots replaced -/
+theorem variants_overlay (ctl : List Val) (index : Nat) (vs : List Val) :
+    (overlay ctl index vs).length = ctl.length ∧
+    ∀ i, (overlay ctl index vs)[i]? =
+      if index ≤ i ∧ i < index + vs.length ∧ i < ctl.length then vs[i - index]? else ctl[i]? :=
+  ⟨overlay_length ctl index vs, overlay_getElem? ctl index vs⟩
+
+/-- a variant is written only if every name is a control and no value list is longer than the
+    control; then its block is the successive overlay of its pairs, last pair last -/
+theorem variant_block_spec (st : St) (ctl : List Val) (c : Nat) (vs : List Val)
+    (rest : List (Nat × List Val)) (b : List Val)
+    (h : variantBlock st ctl ((c, vs) :: rest) = some b) :
+    ∃ cn, lookupName st.names c = some cn ∧ vs.length ≤ cn.size ∧
+      variantBlock st (overlay ctl cn.index vs) rest = some b := by
+  simp only [variantBlock] at h
+  split at h
+  · cases h
+  · rename_i cn hcn
+    split at h
+    · cases h
+    · exact ⟨cn, hcn, by omega, h⟩
+
+theorem variant_block_length (st : St) (ctl : List Val) (pairs : List (Nat × List Val)) (b : List Val)
+    (h : variantBlock st ctl pairs = some b) : b.length = ctl.length := by
+  induction pairs generalizing ctl with
+  | nil => simp [variantBlock] at h; rw [← h]
+  | cons p rest ih =>
+    obtain ⟨c, vs⟩ := p
+    obtain ⟨cn, _, _, h'⟩ := variant_block_spec st ctl c vs rest b h
+    rw [ih _ h', overlay_length]
+
+/-- the variants section holds one full-size block per variant of the longest valid prefix: the
+    count written equals the number of blocks (the definition stays well formed) -/
+theorem variants_wellformed (st : St) (vars : List (Nat × List (Nat × List Val))) :
+    (variantBlocks st vars).length ≤ vars.length ∧
+    ∀ b ∈ variantBlocks st vars, b.length = st.controls.length := by
+  induction vars with
+  | nil => simp [variantBlocks]
+  | cons v rest ih =>
+    obtain ⟨n, pairs⟩ := v
+    simp only [variantBlocks]
+    split
+    · simp
+    · split
+      · simp
+      · rename_i b hb
+        refine ⟨by simp; exact ih.1, ?_⟩
+        intro b' hb'
+        rcases List.mem_cons.mp hb' with rfl | h
+        · exact variant_block_length st _ _ _ hb
+        · exact ih.2 b' h
+
+/-! ## calling the definition -/
+
+/-- positional arguments are paired, in order, with the graph function's parameters that are
+    controls (those not consumed by `prepend`); keyword pairs follow in order -/
+theorem call_maps_args {α : Type} (top : Level) (args : List α) (kwargs : List (Nat × α)) :
+    callArgs (callableArgs top) args kwargs =
+      ((top.params.drop top.skip).map (·.name)).zip args ++ kwargs ∧
+    (callArgs (callableArgs top) args kwargs).length =
+      min (top.params.length - top.skip) args.length + kwargs.length := by
+  simp [callArgs, callableArgs]
+
+/-! ## non-vacuity -/
+
+def exLevel : Level :=
+  { params := [⟨0, none, .none⟩, ⟨1, some .ir, .scalar 1⟩, ⟨2, none, .tuple [2, 3]⟩, ⟨3, some .tr, .scalar 4⟩],
+    rates := [.none, .num 5], skip := 1 }
+
+/-- `def f(p0, a:'ir'=1, b=(2,3), c:'tr'=4)` with `rates=[None, 5]`, `prepend=[x]` -/
+example : ∃ st as, buildDef (fun _ => none) St.init [exLevel] = .ok (st, as) ∧
+    st.controls = [1, 4, 2, 3] ∧ nameTable st = [(1, 0), (2, 2), (3, 1)] ∧ st.units.length = 3 ∧
+    as = [[.one (0, 0), .many [(2, 0), (2, 1)], .one (1, 0)]] :=
+  ⟨_, _, rfl, rfl, rfl, rfl, rfl⟩
+
 end Sc3Verif.C04
